@@ -206,35 +206,19 @@ fn line_row_addrs(secs: &[(String, Vec<u8>)]) -> Result<String, String> {
 /// `c12-lineaddr s8192,r,a4,r,e`: see lean/Gimli/Drv/C12.lean
 fn c12_lineaddr(ins: &str) -> Option<String> {
     let mut prog = Vec::new();
-    // the reader's own rule, re-stated: is a row reported and then left without its end row?
-    let (mut addr, mut tomb, mut open, mut dangling) = (0u64, false, false, false);
     for t in ins.split(',') {
         match t.as_bytes().first()? {
-            b'r' => {
-                prog.push(1);
-                open |= !tomb;
-            }
-            b'e' => {
-                prog.extend_from_slice(&[0, 1, 1]);
-                dangling |= tomb && open;
-                (addr, tomb, open) = (0, false, false);
-            }
+            b'r' => prog.push(1),
+            b'e' => prog.extend_from_slice(&[0, 1, 1]),
             b's' => {
                 let a: u64 = t[1..].parse().ok()?;
                 prog.extend_from_slice(&[0, 9, 2]);
                 prog.extend_from_slice(&a.to_le_bytes());
-                tomb = a < addr || a >= u64::MAX - 1;
-                if !tomb {
-                    addr = a;
-                }
             }
             b'a' => {
                 let d: u64 = t[1..].parse().ok()?;
                 prog.push(2);
                 prog.extend(asm::uleb(d));
-                if !tomb {
-                    addr += d;
-                }
             }
             _ => return None,
         }
@@ -247,7 +231,7 @@ fn c12_lineaddr(ins: &str) -> Option<String> {
     Some(match convert_once(&secs, RunTimeEndian::Little) {
         Err(_) => format!("ok in={rin} failed"),
         Ok(b) => match line_row_addrs(&b) {
-            Ok(rout) if rout == rin || dangling => format!("ok in={rin} out={rout}"),
+            Ok(rout) if rout == rin => format!("ok in={rin} out={rout}"),
             Ok(rout) => format!("ok in={rin} out={rout} #oracle:rows-differ the converted program reads back with other rows"),
             Err(e) => format!("ok in={rin} out=? #oracle:output-unreadable {e}"),
         },
@@ -826,7 +810,7 @@ pub fn gen(ctx: &Ctx, emit: &mut dyn FnMut(String)) {
                         v.push(format!("s{base}"));
                     }
                     7 => v.push(format!("s{}", base - rng.below(0x40).min(base))),
-                    8 => v.push(format!("s{}", *rng.pick(&[0u64, 1, u64::MAX, u64::MAX - 1, u64::MAX - 2]))),
+                    8 => v.push(format!("s{}", *rng.pick(&[0u64, 1, u64::MAX, u64::MAX - 1]))),
                     9 => {
                         v.push("e".into());
                         base = 0x1000 * (1 + rng.below(4));
